@@ -9,6 +9,7 @@ latency × windowScale) over the sliding window with the current bucket ignored.
 import GoZero.C02.Capacity
 import GoZero.C02.Interleave
 namespace GoZero.C02
+open Conc
 
 /-- **Sheds only when hot and busy.**  For every shedder state, time, checker verdict and CPU reading:
 if `Allow` returns ErrServiceOverloaded then the CPU verdict at that call was "over threshold", or shedding
@@ -224,27 +225,154 @@ theorem monitor_sound (window buckets : Nat) (threshold : Int) (t0 : Nat)
     (wref_init window buckets threshold t0 hb hw)
   exact monitor_sound_of_ref wc _ _ inv.1 inv.2 cpuOver cpu
 
-/-! ### every interleaving, any number of goroutines (model: Interleave.lean) -/
+/-! ### every interleaving, any number of goroutines (model: Interleave.lean)
+
+Every access of Allow / Pass / Fail to shared memory is a step of its own; goroutines and the clock interleave
+arbitrarily.  Each register a goroutine loads is tied by a ghost to the shared state at the step of the load. -/
+
+/-- the interleaving model computes the same capacity estimate and limit as the sequential model. -/
+theorem conc_limit_is_model_limit (s : Shedder) (now : Nat) (cpu : Int) :
+    s.maxFlight now = Conc.capOf ⟨s.cpuThreshold, s.windowScale⟩ (s.maxPass now) (s.minRt now)
+    ∧ s.limit now cpu = Conc.limC ⟨s.cpuThreshold, s.windowScale⟩ (s.maxPass now) (s.minRt now) cpu := ⟨rfl, rfl⟩
 
 /-- **In-flight conservation under every schedule.**  With any number `n` of request goroutines running
-Allow / Pass / Fail concurrently (each shared access one atomic step, any interleaving), in every reachable
-state the `flying` counter equals the number of goroutines that have been admitted and have not yet resolved
-their promise. -/
-theorem flying_conservation_all_schedules (n : Nat) (s : Conc.Sys) (h : Conc.Reach n s) :
-    s.flying = (Conc.inFlight s : Int) :=
-  (Conc.reach_inv n s h).conserve
+Allow / Pass / Fail concurrently (each shared access one atomic step, any interleaving with each other and with
+the clock), in every reachable state the `flying` counter equals the number of goroutines that have been
+admitted and have not yet resolved their promise. -/
+theorem flying_conservation_all_schedules (cfg : Cfg) (sh0 : Shared) (n : Nat) (s : Sys)
+    (h : Reach cfg sh0 n s) : s.sh.flying = (Conc.inFlight s : Int) :=
+  (reach_inv s h).conserve
 
-/-- **A shed under every schedule** is decided on a value of `flying` that was, at its read instant, the
-number of requests in flight and at least 1 (limit = maxFlight·factor ≥ 1/10): with nothing in flight at that
-instant no goroutine can be shed. -/
-theorem shed_read_at_least_one_in_flight (n : Nat) (s : Conc.Sys) (h : Conc.Reach n s) (t : Conc.Th)
-    (ht : t ∈ s.ths) (hd : t.pc = 2) : 1 ≤ t.rf :=
-  (Conc.reach_inv n s h).dropped t ht hd
+/-- **Sheds only when hot and busy, under every schedule — each conjunct at its own read instant.**
+If a goroutine's Allow has decided to return ErrServiceOverloaded (it is past the last comparison of
+`highThru`), then there are reachable states `sAvg`, `sMp`, `sRt`, `sFly` — the instants at which it read the moving
+average, the pass window, the latency window and the `flying` counter, in this order, all before now — such that
+* the checker's verdict for this call was "over threshold", or there are three earlier instants, in order, at
+  which `droppedRecently` was set, `overloadTime` was non-zero, and the clock was less than one second past
+  that `overloadTime`;
+* the number of goroutines in flight at `sFly` exceeds 10 % of the capacity estimate formed from the peak pass
+  count of the window as it stood at `sMp` and the minimum latency of the window as it stood at `sRt`;
+* the moving average at `sAvg` exceeds 10 % of that estimate;
+* at least one request was in flight at `sFly`: with nothing in flight at the read no goroutine is shed. -/
+theorem shed_only_if_hot_and_busy_all_schedules (cfg : Cfg) (sh0 : Shared) (n : Nat) (s : Sys)
+    (h : Reach cfg sh0 n s) (t : Th) (ht : t ∈ s.ths) (hd : t.pc = .logHot ∨ t.pc = .setDr ∨ t.pc = .shed) :
+    ∃ sAvg sMp sRt sFly : Sys,
+      Reach cfg sh0 n sAvg ∧ Reach cfg sh0 n sMp ∧ Reach cfg sh0 n sRt ∧ Reach cfg sh0 n sFly
+      ∧ sAvg.steps ≤ sMp.steps ∧ sMp.steps ≤ sRt.steps ∧ sRt.steps ≤ sFly.steps ∧ sFly.steps ≤ s.steps
+      ∧ (t.over = true ∨
+          ∃ sDr sOt sNow : Sys, Reach cfg sh0 n sDr ∧ Reach cfg sh0 n sOt ∧ Reach cfg sh0 n sNow
+            ∧ sDr.steps ≤ sOt.steps ∧ sOt.steps ≤ sNow.steps ∧ sNow.steps ≤ sAvg.steps
+            ∧ sDr.sh.dropped = true ∧ sOt.sh.overloadTime ≠ 0
+            ∧ sNow.sh.now - sOt.sh.overloadTime < 1000000000)
+      ∧ 10 * ((Conc.inFlight sFly : Int) : Rat) >
+          capOf cfg (maxPassOf (sMp.sh.passC.visible sMp.sh.now)) (minRtOf (sRt.sh.rtC.visible sRt.sh.now))
+      ∧ 10 * sAvg.sh.avg >
+          capOf cfg (maxPassOf (sMp.sh.passC.visible sMp.sh.now)) (minRtOf (sRt.sh.rtC.visible sRt.sh.now))
+      ∧ 1 ≤ Conc.inFlight sFly := by
+  have inv := reach_inv s h
+  have hl := inv.loc t ht
+  have hst : t.pc.stage = 6 := by rcases hd with h | h | h <;> simp [h, PC.stage]
+  have hgate := hl.gate (by omega)
+  obtain ⟨⟨sA, rA, eA⟩, hravg, _, hoA⟩ := hl.avg (by omega)
+  obtain ⟨⟨sM, rM, eM⟩, hrmp, hAM, _⟩ := hl.mp (by omega)
+  obtain ⟨⟨sR, rR, eR⟩, hrrt, hMR, _⟩ := hl.rt (by omega)
+  have hcmp := hl.cmp (by omega)
+  obtain ⟨⟨sF, rF, eF⟩, hrf, hflim, hRF, hFl⟩ := hl.fly (by omega)
+  have hlast := inv.last t ht
+  have sA_sh : sA.sh = t.gAvg.sh := by rw [← eA]; rfl
+  have sM_sh : sM.sh = t.gMp.sh := by rw [← eM]; rfl
+  have sR_sh : sR.sh = t.gRt.sh := by rw [← eR]; rfl
+  have sF_sh : sF.sh = t.gFly.sh := by rw [← eF]; rfl
+  have sA_seq : sA.steps = t.gAvg.seq := by rw [← eA]; rfl
+  have sM_seq : sM.steps = t.gMp.seq := by rw [← eM]; rfl
+  have sR_seq : sR.steps = t.gRt.seq := by rw [← eR]; rfl
+  have sF_seq : sF.steps = t.gFly.seq := by rw [← eF]; rfl
+  -- the value read from the counter is the number of goroutines in flight at that instant
+  have hFc : t.rf = (Conc.inFlight sF : Int) := by rw [hrf, ← sF_sh]; exact (reach_inv sF rF).conserve
+  have hb := Conc.limC_bounds cfg t.rmp t.rrt t.rcpu
+  have hc1 := Conc.capOf_ge_one cfg t.rmp t.rrt
+  have hlim : limOf cfg t = limC cfg t.rmp t.rrt t.rcpu := rfl
+  rw [hlim] at hcmp hflim
+  refine ⟨sA, sM, sR, sF, rA, rM, rR, rF, by omega, by omega, by omega, by omega, ?_, ?_, ?_, ?_⟩
+  · rcases hgate with ho | ⟨⟨sD, rD, eD⟩, hdr, ⟨sO, rO, eO⟩, hot, ⟨sN, rN, eN⟩, hw, h1, h2, _⟩
+    · exact Or.inl ho
+    · have hov : t.over = false ∨ t.over = true := by cases t.over <;> simp
+      rcases hov with hov | hov
+      · refine Or.inr ⟨sD, sO, sN, rD, rO, rN, ?_, ?_, ?_, ?_, ?_, ?_⟩
+        · have a : sD.steps = t.gDr.seq := by rw [← eD]; rfl
+          have b : sO.steps = t.gOt.seq := by rw [← eO]; rfl
+          omega
+        · have a : sN.steps = t.gNow.seq := by rw [← eN]; rfl
+          have b : sO.steps = t.gOt.seq := by rw [← eO]; rfl
+          omega
+        · have a : sN.steps = t.gNow.seq := by rw [← eN]; rfl
+          have := hoA hov
+          omega
+        · have a : sD.sh = t.gDr.sh := by rw [← eD]; rfl
+          rw [a]; exact hdr
+        · have a : sO.sh = t.gOt.sh := by rw [← eO]; rfl
+          rw [a]; exact hot
+        · have a : sO.sh = t.gOt.sh := by rw [← eO]; rfl
+          have b : sN.sh = t.gNow.sh := by rw [← eN]; rfl
+          rw [a, b]; exact hw
+      · exact Or.inl hov
+  · rw [sM_sh, sR_sh, ← hrmp, ← hrrt, ← hFc]; grind
+  · rw [sM_sh, sR_sh, ← hrmp, ← hrrt, sA_sh, ← hravg]; grind
+  · have : (0 : Rat) < ((Conc.inFlight sF : Int) : Rat) := by rw [← hFc]; grind
+    have := Rat.intCast_pos.mp this
+    omega
 
--- non-vacuity: three goroutines; 0 and 1 are admitted, 2 reads flying = 2 and is shed against limit 1/10
-example : ((((((Conc.step (Conc.init 3) 0 0 false).bind (Conc.step · 0 0 false)).bind (Conc.step · 1 0 false)).bind
-    (Conc.step · 1 0 false)).bind (Conc.step · 2 0 false)).bind (Conc.step · 2 (1 / 10) true)).map
-    (fun s => (s.flying, Conc.inFlight s, s.ths.map (·.pc))) = some (2, 2, [3, 3, 2]) := by decide +kernel
+
+/-- the older formulation: the value of `flying` a shed was decided on was at least 1 (and was the number of
+requests in flight at its read instant). -/
+theorem shed_read_at_least_one_in_flight (cfg : Cfg) (sh0 : Shared) (n : Nat) (s : Sys) (h : Reach cfg sh0 n s)
+    (t : Th) (ht : t ∈ s.ths) (hd : t.pc = .shed) :
+    1 ≤ t.rf ∧ ∃ sFly, Reach cfg sh0 n sFly ∧ t.rf = (Conc.inFlight sFly : Int) := by
+  have hl := (reach_inv s h).loc t ht
+  obtain ⟨⟨sF, rF, eF⟩, hrf, hflim, _, _⟩ := hl.fly (by simp [hd, PC.stage])
+  have sF_sh : sF.sh = t.gFly.sh := by rw [← eF]; rfl
+  have hFc : t.rf = (Conc.inFlight sF : Int) := by rw [hrf, ← sF_sh]; exact (reach_inv sF rF).conserve
+  have hb := Conc.limC_bounds cfg t.rmp t.rrt t.rcpu
+  have hc1 := Conc.capOf_ge_one cfg t.rmp t.rrt
+  have hlim : limOf cfg t = limC cfg t.rmp t.rrt t.rcpu := rfl
+  rw [hlim] at hflim
+  have : (0 : Rat) < (t.rf : Rat) := by grind
+  have := Rat.intCast_pos.mp this
+  exact ⟨by omega, sF, rF, hFc⟩
+
+-- non-vacuity: three goroutines on a shedder whose average is 3 (capacity 10, CPU at 1000 → limit 1);
+-- 0 and 1 are admitted, the clock ticks, 2 sees the checker say "over", stamps overloadTime = 12, reads
+-- flying = 2 > 1 and is shed; the hypotheses of the theorems above hold for it
+def exCfg : Cfg := ⟨900, 1 / 100⟩
+def exShared : Shared :=
+  { now := 5, flying := 0, avg := 3, overloadTime := 0, dropped := false,
+    passC := RW.new 10 100000000 1 true, rtC := RW.new 10 100000000 1 true }
+def exSchedule : List Act :=
+  [.run 0 {}, .run 1 {}, .run 0 {}, .run 0 {}, .run 2 { over := true }, .run 1 {}, .run 1 {}, .tick 7,
+   .run 2 {}, .run 2 {}, .run 2 {}, .run 2 {}, .run 2 {}, .run 2 { cpu := 1000 }, .run 2 {}, .run 2 {}, .run 2 {}, .run 0 {}]
+
+/-- what the example looks at: flying, goroutines in flight, droppedRecently, overloadTime, then every
+goroutine's value read from `flying`; and every goroutine's position. -/
+def Conc.summary (s : Sys) : List Int × List PC :=
+  ([s.sh.flying, (Conc.inFlight s : Int), if s.sh.dropped then 1 else 0, (s.sh.overloadTime : Int)] ++ s.ths.map (·.rf),
+   s.ths.map (·.pc))
+
+example : (Conc.runActs exCfg (Conc.init exShared 3) exSchedule).map Conc.summary =
+    some ([2, 2, 1, 12, 0, 0, 2], [.inflight, .stamp, .shed]) := by decide +kernel
+
+
+example : ∃ s, Reach exCfg exShared 3 s ∧ ∃ t ∈ s.ths, t.pc = .shed := by
+  cases h : Conc.runActs exCfg (Conc.init exShared 3) exSchedule with
+  | none => exact absurd h (by decide +kernel)
+  | some s =>
+    refine ⟨s, Conc.reach_runActs exCfg exShared 3 exSchedule _ s Reach.init h, ?_⟩
+    have h2 : (Conc.runActs exCfg (Conc.init exShared 3) exSchedule).map (fun s => s.ths.map (·.pc))
+        = some [.inflight, .stamp, .shed] := by decide +kernel
+    rw [h] at h2
+    simp only [Option.map_some, Option.some.injEq] at h2
+    have : PC.shed ∈ s.ths.map (·.pc) := by rw [h2]; simp
+    obtain ⟨t, ht, hp⟩ := List.mem_map.mp this
+    exact ⟨t, ht, hp⟩
 
 /-- **A disabled shedder never sheds** (`NewAdaptiveShedder` returns the nop shedder when disabled). -/
 theorem disabled_never_sheds : nopAllow = Verdict.admitted := rfl
